@@ -78,6 +78,7 @@ def run(tier, seed, replay=None):
             stats["steps_vs_model"] += r.msum[1]
             stats["model_diffs"] += r.msum[3]
             direct = []
+            stalled_known = set()
             for cid in r.order:
                 c = r.cases[cid]
                 for i, (s, res) in enumerate(zip(c["steps"], c["results"])):
@@ -94,8 +95,14 @@ def run(tier, seed, replay=None):
                     else:
                         stats["not_one_value"] += 1
                         sig = "%s/oneval" % name
-                        if sig in known and not (r.mdiffs.get(cid) and r.mdiffs[cid][0] <= i + 1):
+                        if toks[:1] == ["TIMEOUT"]:
+                            sig = T.stall_signature(s)      # a hang: classified by its root-cause shape
+                        is_stall = toks[:1] == ["TIMEOUT"]
+                        if sig in known and (is_stall or not (r.mdiffs.get(cid) and r.mdiffs[cid][0] <= i + 1)):
                             confirmed.setdefault(sig, (cid, i + 1))
+                            if is_stall:
+                                stalled_known.add(cid)
+                                break
                         else:
                             direct.append({"case": cid, "step": i + 1, "signature": sig, "text": "reply tokens: " + res[:200],
                                            "reason": "the reply is not exactly one well-formed RESP value"})
@@ -109,7 +116,7 @@ def run(tier, seed, replay=None):
                 seen.add(v["signature"])
                 out.violation(T.replay_of(PID, r, v))
             if not direct:
-                for case, (step, kind, detail) in list(r.mdiffs.items())[:2]:
+                for case, (step, kind, detail) in [kv for kv in r.mdiffs.items() if kv[0] not in stalled_known][:2]:
                     out.violation(T.replay_of(PID, r, {"case": case, "step": step, "detail": detail},
                                               {"broken": "correspondence model/implementation (reply or state)",
                                                "theorems_no_longer_about_the_code": pf["theorems"]}), nofail=True)
